@@ -791,7 +791,7 @@ package collection
 //@ func (*setClass_).And
 //@   props C15 C19
 //@   implements SetClassLike.And
-//@   ensures[C19] fresh(collator(result))
+//@   checks[C19] fresh(collator(result))
 //@   uses smem_snoc, smem_take_all, smem_take_none, smem_empty, smem_equiv
 //@   let c := collator(first)
 //@   loop 1:
@@ -803,17 +803,17 @@ package collection
 //@ func (*setClass_).Or
 //@   props C15 C19
 //@   implements SetClassLike.Or
-//@   ensures[C19] fresh(collator(result))
+//@   checks[C19] fresh(collator(result))
 //@   uses smem_empty
 //@ func (*setClass_).Sans
 //@   props C15 C19
 //@   implements SetClassLike.Sans
-//@   ensures[C19] fresh(collator(result))
+//@   checks[C19] fresh(collator(result))
 //@   uses smem_empty
 //@ func (*setClass_).Xor
 //@   props C15 C19
 //@   implements SetClassLike.Xor
-//@   ensures[C19] fresh(collator(result))
+//@   checks[C19] fresh(collator(result))
 
 // ---------------------------------------------------------------- association_ (C03, C14, C16)
 
